@@ -64,8 +64,12 @@ fn pos_tails() -> Vec<Vec<PosItem>> {
     out
 }
 
+pub const RESERVED: &str = "--bpaf-complete-rev=8";
+
 pub fn c09_alphabet(l: &Level) -> Vec<Tok> {
-    let mut out = toks(&["v", "w", "--", "-", "--help", "-z"]);
+    // `--bpaf-complete-rev=8` is the parser's own reserved option: right of `--` it is a word
+    // like any other (left of it the run turns into a completion request: not judged)
+    let mut out = toks(&["v", "w", "--", "-", "--help", "-z", RESERVED]);
     l.walk(
         &mut |lv, _| {
             for n in &lv.named {
@@ -135,6 +139,14 @@ impl Check for C09 {
             if argv.iter().any(|t| t.0 == b"--") {
                 ctx.count("vectors-with-separator");
             }
+            let dd = argv.iter().position(|t| t.0 == b"--").unwrap_or(argv.len());
+            if argv[..dd].iter().any(|t| t.0 == RESERVED.as_bytes()) {
+                ctx.s.skipped += 1;
+                return true;
+            }
+            if argv[dd..].iter().any(|t| t.0 == RESERVED.as_bytes()) {
+                ctx.count("reserved-option-name-right-of-separator");
+            }
             judge("C09", &u.level, unit, &model, &p, argv, &env, ctx);
             true
         });
@@ -149,7 +161,7 @@ impl Check for C09 {
         }
     }
     fn rule(&self) -> String {
-        "definitions = every unambiguous positional suffix of 0..3 items (required* then required|optional|many|some; plus non_strict variadic followed by strict items) with every strictness assignment {unrestricted, strict, non_strict}, beside nothing / a switch / an optional argument / below a sub-command; every vector of the token tree over {v, w, -, --, --help, -z, declared names, --name, --name=--, command name}; judged by the reference scanner: first `--` splits, is never delivered, right side is verbatim positional data (so `-- --help` is data), left words go to unrestricted/non_strict positionals and right words to unrestricted/strict ones in order; `--name --` fails, `--name=--` delivers `--`; state = (definition, vector)".into()
+        "definitions = every unambiguous positional suffix of 0..3 items (required* then required|optional|many|some; plus non_strict variadic followed by strict items) with every strictness assignment {unrestricted, strict, non_strict}, beside nothing / a switch / an optional argument / below a sub-command; every vector of the token tree over {v, w, -, --, --help, -z, --bpaf-complete-rev=8 (the parser's own reserved option: judged right of `--` only, where it is data), declared names, --name, --name=--, command name}; judged by the reference scanner: first `--` splits, is never delivered, right side is verbatim positional data (so `-- --help` is data), left words go to unrestricted/non_strict positionals and right words to unrestricted/strict ones in order; `--name --` fails, `--name=--` delivers `--`; state = (definition, vector)".into()
     }
     fn bounds(&self, tier: Tier) -> Value {
         json!({"positionals": "0..3", "vector_length": tier.pick("5 (4 with three positionals; +1 for positional-only levels)", "6 (7 for positional-only levels)")})
